@@ -25,6 +25,7 @@ for i, a in enumerate(sys.argv):
 results = json.load(open(resf)) if os.path.exists(resf) else {}
 if SCRATCH:
     head = subprocess.run(["git", "-C", "/repo", "rev-parse", "HEAD"], capture_output=True, text=True).stdout.strip()
+    if not os.path.isdir(SCRATCH): subprocess.run(["git", "-C", "/repo", "worktree", "add", "--detach", SCRATCH, head], capture_output=True)   # created on demand; remove it with `git -C /repo worktree remove --force`
     subprocess.run(["git", "-C", SCRATCH, "checkout", "-q", "--detach", head])   # the scratch worktree follows /repo's HEAD
 if subprocess.run(["git", "-C", REPO, "status", "--porcelain", "--untracked-files=no"], capture_output=True, text=True).stdout.strip():
     print("refusing: /repo has uncommitted changes"); sys.exit(2)
